@@ -256,52 +256,34 @@ func run(c *fw.Ctx) {
 		if n > 0 {
 			c.Sample(fmt.Sprintf("%s pool e.g. %q", sys, pool[:min(6, n)]))
 		}
-		// all ordered pairs
-		idx := make([][]int, n)
-		m := make([][]int8, n)
-		for i := 0; i < n; i++ {
-			idx[i] = make([]int, n)
-			m[i] = make([]int8, n)
-			for j := 0; j < n; j++ {
-				k, r := c.Op(cmpLine(sys, pool[i], pool[j]))
-				idx[i][j] = k
-				v, ok := parseRes(r)
-				if !ok {
-					v = 9 // forces the oracles to look at it
+		// all ordered pairs + the oracles over all triples
+		idx := checkPool(c, sys, pool, true)
+		n = len(pool)
+		// families of near-equal spellings: a base version, small edits of it (case, leading
+		// zeros, separators, neighbouring letters/digits, added/dropped components) and two
+		// unrelated pool members; all pairs and all triples inside each family
+		for f, nf := 0, c.N(30, 150); f < nf && n > 0; f++ {
+			base := pool[c.Rng.Intn(n)]
+			if c.Rng.Intn(3) == 0 {
+				base = semverops.GenVersion(c.Rng, sys)
+			}
+			fam := []string{}
+			for _, v := range append([]string{base}, semverops.Variants(c.Rng, base, 14)...) {
+				if !semverops.InModelDomain(sys, v) || (sys == semver.Maven && !mavenShapeRE.MatchString(v)) {
+					continue
 				}
-				m[i][j] = int8(v)
-				c.Nontrivial(fmt.Sprintf("%s|%s|%s", sys, canonOf(sys, pool[i]), canonOf(sys, pool[j])))
-			}
-		}
-		// oracles on the matrix
-		var checks int64
-		for i := 0; i < n; i++ {
-			if m[i][i] != 0 {
-				c.Check("refl", idx[i][i])
-			}
-			for j := 0; j < n; j++ {
-				if m[i][j] != -m[j][i] || m[i][j] == 9 {
-					c.Check("antisym", idx[i][j], idx[j][i])
+				if _, err := sys.Parse(v); err != nil {
+					continue
 				}
-				checks += 2
-			}
-		}
-		for i := 0; i < n; i++ {
-			for j := 0; j < n; j++ {
-				ab := m[i][j]
-				for k := 0; k < n; k++ {
-					bc, ac := m[j][k], m[i][k]
-					if ab <= 0 && bc <= 0 && (ac > 0 || ((ab < 0 || bc < 0) && ac == 0)) {
-						c.Check("trans", idx[i][j], idx[j][k], idx[i][k])
-					}
-					if ab == 0 && ac != bc {
-						c.Check("congr", idx[i][j], idx[i][k], idx[j][k])
-					}
+				fam = append(fam, v)
+				if len(fam) >= 10 {
+					break
 				}
 			}
+			fam = append(fam, pool[c.Rng.Intn(n)], pool[c.Rng.Intn(n)])
+			c.Count(fmt.Sprintf("%s:family-size-%d", sys, len(fam)))
+			checkPool(c, sys, dedup(fam), false)
 		}
-		checks += int64(n) * int64(n) * int64(n) * 2
-		c.Tally(checks)
 		// build metadata never changes the result
 		if sys != semver.Maven && sys != semver.PyPI && sys != semver.RubyGems {
 			for i := 0; i < n && i < 60; i++ {
@@ -352,6 +334,72 @@ func run(c *fw.Ctx) {
 			c.Check("history", idx[i][j])
 		}
 	}
+}
+
+func dedup(xs []string) []string {
+	seen := map[string]bool{}
+	var out []string
+	for _, x := range xs {
+		if !seen[x] {
+			seen[x] = true
+			out = append(out, x)
+		}
+	}
+	return out
+}
+
+// checkPool issues cmp ops for all ordered pairs of the pool and evaluates reflexivity,
+// antisymmetry, transitivity and congruence over all pairs/triples; returns the op index matrix.
+func checkPool(c *fw.Ctx, sys semver.System, pool []string, nontrivial bool) [][]int {
+	n := len(pool)
+	idx := make([][]int, n)
+	m := make([][]int8, n)
+	for i := 0; i < n; i++ {
+		idx[i] = make([]int, n)
+		m[i] = make([]int8, n)
+		for j := 0; j < n; j++ {
+			k, r := c.Op(cmpLine(sys, pool[i], pool[j]))
+			idx[i][j] = k
+			v, ok := parseRes(r)
+			if !ok {
+				v = 9 // forces the oracles to look at it
+			}
+			m[i][j] = int8(v)
+			if nontrivial {
+				c.Nontrivial(fmt.Sprintf("%s|%s|%s", sys, canonOf(sys, pool[i]), canonOf(sys, pool[j])))
+			}
+		}
+	}
+	// oracles on the matrix
+	var checks int64
+	for i := 0; i < n; i++ {
+		if m[i][i] != 0 {
+			c.Check("refl", idx[i][i])
+		}
+		for j := 0; j < n; j++ {
+			if m[i][j] != -m[j][i] || m[i][j] == 9 {
+				c.Check("antisym", idx[i][j], idx[j][i])
+			}
+			checks += 2
+		}
+	}
+	for i := 0; i < n; i++ {
+		for j := 0; j < n; j++ {
+			ab := m[i][j]
+			for k := 0; k < n; k++ {
+				bc, ac := m[j][k], m[i][k]
+				if ab <= 0 && bc <= 0 && (ac > 0 || ((ab < 0 || bc < 0) && ac == 0)) {
+					c.Check("trans", idx[i][j], idx[j][k], idx[i][k])
+				}
+				if ab == 0 && ac != bc {
+					c.Check("congr", idx[i][j], idx[i][k], idx[j][k])
+				}
+			}
+		}
+	}
+	checks += int64(n) * int64(n) * int64(n) * 2
+	c.Tally(checks)
+	return idx
 }
 
 // respell produces another spelling that usually denotes an equal version.
